@@ -55,6 +55,10 @@ func TestVerifFlushReplay(t *testing.T) {
 			ev := (*syscall.InotifyEvent)(unsafe.Pointer(&buf[off]))
 			name := strings.TrimRight(string(buf[off+syscall.SizeofInotifyEvent:off+syscall.SizeofInotifyEvent+int(ev.Len)]), "\x00")
 			events = append(events, fmt.Sprintf("%x:%s", ev.Mask, name))
+			if name == "id.sbxmap" && ev.Mask&syscall.IN_DELETE != 0 {
+				fmt.Println("REPLAY-OUTCOME: ASSERT-FAILED: the previous version is removed before the new one is in place")
+				t.Fatalf("final path deleted during flush: %v", events)
+			}
 			if name == "id.sbxmap" && ev.Mask&(syscall.IN_CREATE|syscall.IN_MODIFY|syscall.IN_CLOSE_WRITE) != 0 {
 				fmt.Println("REPLAY-OUTCOME: ASSERT-FAILED: new metadata is written to the temporary file only, never to the final path")
 				t.Fatalf("final path written in place: %v", events)
